@@ -1,10 +1,13 @@
 //! Correspondence harness of property C13 (pairing: bilinearity, non-degeneracy, entry points).
 use mzkh::Ctx;
 
+mod pair;
 mod tower;
 
 fn main() {
     let mut ctx = Ctx::from_args("C13");
     tower::run(&mut ctx);
+    pair::run_engine::<pair::Bls>(&mut ctx);
+    pair::run_engine::<pair::Bn>(&mut ctx);
     ctx.finish();
 }
